@@ -80,6 +80,12 @@ class World(EventDispatcher):
             while entity_id in self._entities:
                 entity_id = next(self.id_generator)
 
+        # Manage replaced components (an imposed entity_id may be in use)
+        for component_type in tuple(self._entities.get(entity_id, ())):
+            if any(type(component) is component_type
+                   for component in components):
+                self.remove_component(entity_id, component_type)
+
         # Code duplication for performance, see add_component
         for component in components:
             component_type = type(component)
